@@ -161,7 +161,7 @@ func (obj *SparseInt64Vector) APPEND(w *SparseInt64Vector) *SparseInt64Vector {
   return r
 }
 func (obj *SparseInt64Vector) ToSparseInt64Matrix(n, m int) *SparseInt64Matrix {
-  if n*m != obj.n {
+  if n < 0 || m < 0 || n*m != obj.n {
     panic("Matrix dimension does not fit input vector!")
   }
   v := NullSparseInt64Vector(obj.n)
